@@ -1,188 +1,526 @@
-"""IMG-CS: parser for the subset of C# the dotnet plugin emits (line structured: one attribute per
-line, one member declaration per line)."""
+"""IMG-CS: token-level parser for the subset of C# the dotnet plugin emits (type declarations with
+attribute lists, auto-properties, constructors with assignment bodies, enums, static string
+properties).  Layout (line breaks, spacing, merged or split attribute lists, brace placement, comments)
+is irrelevant; everything the parser does not understand inside a type body is skipped as a balanced
+token group.  Attributes are re-rendered in one canonical spelling (`Name(arg, Key = value)`)."""
 from __future__ import annotations
 
 import os
 import re
-
-ATTR_RE = re.compile(r"^\[(.*)\]$")
-TYPE_DECL_RE = re.compile(r"^public\s+(?:static\s+)?(record|class|enum)\s+([A-Za-z_][A-Za-z0-9_]*)\s*(?::\s*(.*))?$")
-PROP_RE = re.compile(r"^public\s+(?!static)(.+?)\s+([A-Za-z_][A-Za-z0-9_]*)\s*\{\s*get\b.*$")
-STATIC_STR_RE = re.compile(r'^public\s+static\s+string\s+([A-Za-z_][A-Za-z0-9_]*)\s*\{\s*get;\s*\}\s*=\s*"((?:[^"\\]|\\.)*)";$')
-ENUM_MEMBER_STR_RE = re.compile(r'^\[EnumMember\(Value\s*=\s*"((?:[^"\\]|\\.)*)"\)\]\s*([A-Za-z_][A-Za-z0-9_]*)\s*,?$')
-ENUM_MEMBER_INT_RE = re.compile(r"^([A-Za-z_][A-Za-z0-9_]*)\s*=\s*(-?\d+)\s*,?$")
 
 
 class CsParseError(Exception):
     pass
 
 
-def parse_file(text):
-    """-> list of type declarations found in the file:
-    {kind, name, bases, attrs, members:[{name,type,attrs,init}], ctor:{params:[(type,name,default)], assigns:[(lhs,rhs)]},
-     enum_members:[(name, value)], statics:[(name, value)]}"""
-    lines = [l.strip() for l in text.splitlines()]
+_TOKEN_RE = re.compile(r"""
+    (?P<ws>\s+)
+  | (?P<lcomment>//[^\n]*)
+  | (?P<bcomment>/\*.*?\*/)
+  | (?P<pp>\#[^\n]*)
+  | (?P<vstr>@"(?:[^"]|"")*")
+  | (?P<str>\$?"(?:[^"\\\n]|\\.)*")
+  | (?P<chr>'(?:[^'\\\n]|\\.)+')
+  | (?P<num>-?\d[\d_]*(?:\.\d+)?[A-Za-z]*)
+  | (?P<id>@?[A-Za-z_][A-Za-z0-9_]*)
+  | (?P<op>=>|\?\?=|\?\?|\?\.|::|==|!=|<=|>=|&&|\|\||\+\+|--|\+=|-=|[{}()\[\]<>;,.:=?!+\-*/%&|^~])
+""", re.X | re.S)
+
+MODIFIERS = {"public", "private", "protected", "internal", "static", "readonly", "sealed", "partial", "abstract", "override",
+             "virtual", "new", "required", "const", "unsafe", "extern", "volatile", "async"}
+TYPE_KEYWORDS = {"record", "class", "enum", "struct", "interface"}
+OPEN = {"{": "}", "(": ")", "[": "]"}
+
+
+def tokenize(text):
     out = []
-    i = 0
-    pending = []
-    cur = None
-    depth = 0
-    n = len(lines)
-    while i < n:
-        l = lines[i]
-        i += 1
-        if not l or l.startswith("//"):
+    pos = 0
+    n = len(text)
+    while pos < n:
+        m = _TOKEN_RE.match(text, pos)
+        if not m:
+            raise CsParseError("cannot tokenize at %r" % text[pos:pos + 30])
+        pos = m.end()
+        k = m.lastgroup
+        if k in ("ws", "lcomment", "bcomment", "pp"):
             continue
-        if l.startswith("using ") or l.startswith("namespace "):
-            if l.endswith("{"):
-                pass
-            continue
-        m = TYPE_DECL_RE.match(l)
-        if m and cur is None:
-            cur = {"kind": m.group(1), "name": m.group(2), "bases": (m.group(3) or "").strip(), "attrs": pending, "members": [],
-                   "ctor": None, "enum_members": [], "statics": [], "other_ctors": []}
-            pending = []
-            out.append(cur)
-            # expect '{'
-            while i < n and lines[i] != "{":
-                if lines[i]:
-                    break
-                i += 1
-            if i < n and lines[i] == "{":
-                i += 1
-                depth = 1
-            continue
-        if cur is None:
-            a = ATTR_RE.match(l)
-            if a:
-                pending.append(a.group(1))
-            elif l in ("{", "}"):
-                pass
-            continue
-        # inside a type body
-        if l == "}":
-            depth -= 1
-            if depth == 0:
-                cur = None
-                pending = []
-            continue
-        if l == "{":
-            depth += 1
-            continue
-        if depth != 1:
-            # nested block (method bodies of converters etc.)
-            depth += l.count("{") - l.count("}")
-            continue
-        if cur["kind"] == "enum":
-            ms = ENUM_MEMBER_STR_RE.match(l)
-            if ms:
-                cur["enum_members"].append((ms.group(2), ms.group(1)))
-                pending = []
-                continue
-            mi = ENUM_MEMBER_INT_RE.match(l)
-            if mi:
-                cur["enum_members"].append((mi.group(1), int(mi.group(2))))
-                pending = []
-                continue
-            a = ATTR_RE.match(l)
-            if a:
-                pending.append(a.group(1))
-                continue
-            raise CsParseError("unexpected line in enum %s: %r" % (cur["name"], l))
-        a = ATTR_RE.match(l)
-        if a:
-            pending.append(a.group(1))
-            continue
-        st = STATIC_STR_RE.match(l)
-        if st:
-            cur["statics"].append((st.group(1), st.group(2), pending))
-            pending = []
-            continue
-        if l.startswith("public %s(" % cur["name"]):
-            is_json = any(x == "JsonConstructor" for x in pending)
-            pending = []
-            sig = l
-            # single-line constructor (type aliases): public X(T a): base(a) {}
-            if sig.rstrip().endswith("{}") or sig.rstrip().endswith("}"):
-                cur["other_ctors"].append(sig)
-                continue
-            params = []
-            inline = sig[len("public %s(" % cur["name"]):]
-            if inline.rstrip().endswith(")"):
-                body = inline.rstrip()[:-1]
-                params = [x.strip() for x in split_top(body) if x.strip()]
-            else:
-                if inline.strip():
-                    params += [x.strip() for x in split_top(inline) if x.strip()]
-                while i < n and lines[i] != ")":
-                    if lines[i]:
-                        params += [x.strip() for x in split_top(lines[i]) if x.strip()]
-                    i += 1
-                i += 1
-            assigns = []
-            if i < n and lines[i] == "{":
-                i += 1
-                d2 = 1
-                while i < n and d2 > 0:
-                    b = lines[i]
-                    i += 1
-                    if b == "{":
-                        d2 += 1
-                    elif b == "}":
-                        d2 -= 1
-                    else:
-                        ma = re.match(r"^([A-Za-z_][A-Za-z0-9_]*)\s*=\s*(.+);$", b)
-                        if ma and d2 == 1:
-                            assigns.append((ma.group(1), ma.group(2)))
-                        d2 += b.count("{") - b.count("}") if b not in ("{", "}") else 0
-            ctor = {"params": [parse_param(x) for x in params], "assigns": assigns, "json": is_json}
-            if is_json or cur["ctor"] is None:
-                cur["ctor"] = ctor
-            continue
-        mp = PROP_RE.match(l)
-        if mp:
-            init = None
-            mi = re.search(r'\}\s*=\s*"((?:[^"\\]|\\.)*)";$', l)
-            if mi:
-                init = mi.group(1)
-            cur["members"].append({"name": mp.group(2), "type": mp.group(1).strip(), "attrs": pending, "init": init, "line": l})
-            pending = []
-            continue
-        if l.startswith("private ") or l.startswith("public ") or l.startswith("if ") or l.startswith("throw ") or l.startswith("reader") or l.startswith("var ") or l.startswith("return") or l.startswith("_"):
-            pending = []
-            depth += l.count("{") - l.count("}")
-            continue
-        depth += l.count("{") - l.count("}")
+        out.append((k, m.group()))
     return out
 
 
-def split_top(s):
-    out, cur, d = [], "", 0
-    for ch in s:
-        if ch in "<(":
-            d += 1
-        elif ch in ">)":
-            d -= 1
-        if ch == "," and d == 0:
-            out.append(cur)
-            cur = ""
+def render(tokens):
+    """Canonical one-line spelling of a token sequence: no spaces except after ',' and around '='."""
+    s = ""
+    prev = None
+    for k, v in tokens:
+        if v == ",":
+            s += ", "
+        elif v == "=":
+            s += " = "
+        elif prev is not None and prev[0] in ("id", "num", "str") and k in ("id", "num", "str") and not s.endswith(" "):
+            s += " " + v
         else:
-            cur += ch
-    if cur.strip():
+            s += v
+        prev = (k, v)
+    return s.strip()
+
+
+class _P:
+    def __init__(self, toks):
+        self.t = toks
+        self.i = 0
+
+    def peek(self, k=0):
+        j = self.i + k
+        return self.t[j][1] if j < len(self.t) else None
+
+    def kind(self, k=0):
+        j = self.i + k
+        return self.t[j][0] if j < len(self.t) else None
+
+    def next(self):
+        v = self.t[self.i]
+        self.i += 1
+        return v
+
+    def eof(self):
+        return self.i >= len(self.t)
+
+    def expect(self, v):
+        if self.peek() != v:
+            raise CsParseError("expected %r, found %r (token %d)" % (v, self.peek(), self.i))
+        self.i += 1
+
+    def balanced(self):
+        """The current token opens a group: consume it up to its partner, return the inner tokens."""
+        op = self.peek()
+        cl = OPEN[op]
+        depth = 0
+        start = self.i + 1
+        while not self.eof():
+            v = self.peek()
+            if v in OPEN:
+                depth += 1
+            elif v in ("}", ")", "]"):
+                depth -= 1
+                if depth == 0:
+                    inner = self.t[start:self.i]
+                    self.i += 1
+                    return inner
+            self.i += 1
+        raise CsParseError("unbalanced %r" % op)
+
+    def skip_to_semicolon(self):
+        """Consume up to and including the next ';' at depth 0."""
+        while not self.eof():
+            v = self.peek()
+            if v in OPEN:
+                self.balanced()
+                continue
+            self.i += 1
+            if v == ";":
+                return
+        return
+
+    # ---- attributes
+    def attr_lists(self):
+        out = []
+        while self.peek() == "[":
+            inner = self.balanced()
+            for part in split_top_tokens(inner):
+                if not part:
+                    continue
+                # drop a target specifier such as `return:` / `field:`
+                if len(part) > 2 and part[1][1] == ":" and part[0][0] == "id":
+                    part = part[2:]
+                out.append(render(part))
+        return out
+
+    # ---- types
+    def parse_type(self):
+        """-> token list of one type, or None (position restored) if the tokens do not form a type."""
+        start = self.i
+        try:
+            self._type()
+        except CsParseError:
+            self.i = start
+            return None
+        return self.t[start:self.i]
+
+    def _type(self):
+        if self.peek() == "(":
+            # tuple type: ( type [name] , type [name] ... )
+            self.i += 1
+            while True:
+                self._type()
+                if self.kind() == "id" and self.peek(1) in (",", ")"):
+                    self.i += 1
+                if self.peek() == ",":
+                    self.i += 1
+                    continue
+                break
+            self.expect(")")
+        else:
+            if self.kind() != "id" or self.peek() in MODIFIERS:
+                raise CsParseError("no type at %r" % self.peek())
+            self.i += 1
+            while self.peek() in (".", "::") and self.kind(1) == "id":
+                self.i += 2
+            if self.peek() == "<":
+                self.i += 1
+                while True:
+                    self._type()
+                    if self.peek() == ",":
+                        self.i += 1
+                        continue
+                    break
+                self.expect(">")
+        while self.peek() == "?" or (self.peek() == "[" and self.peek(1) in ("]", ",")):
+            if self.peek() == "?":
+                self.i += 1
+            else:
+                self.balanced()
+
+
+def split_top_tokens(tokens):
+    out, cur, d = [], [], 0
+    for k, v in tokens:
+        if v in ("(", "[", "{", "<"):
+            d += 1
+        elif v in (")", "]", "}", ">"):
+            d -= 1
+        if v == "," and d == 0:
+            out.append(cur)
+            cur = []
+        else:
+            cur.append((k, v))
+    if cur:
         out.append(cur)
     return out
 
 
-def parse_param(p):
-    default = None
-    if "=" in p:
-        p, default = p.split("=", 1)
-        default = default.strip()
-    p = p.strip()
-    m = re.match(r"^(.*\S)\s+([A-Za-z_@][A-Za-z0-9_]*)$", p)
-    if not m:
-        return (p, "", default)
-    return (m.group(1).strip(), m.group(2), default)
+def _unquote(tok):
+    s = tok
+    if s.startswith('@"'):
+        return s[2:-1].replace('""', '"')
+    if s.startswith("$"):
+        s = s[1:]
+    return s[1:-1]
+
+
+def _parse_params(tokens):
+    out = []
+    for part in split_top_tokens(tokens):
+        if not part:
+            continue
+        # drop attribute lists and modifiers (ref/out/in/params/this)
+        while part and part[0][1] == "[":
+            depth = 0
+            j = 0
+            for j, (k, v) in enumerate(part):
+                if v == "[":
+                    depth += 1
+                elif v == "]":
+                    depth -= 1
+                    if depth == 0:
+                        break
+            part = part[j + 1:]
+        while part and part[0][1] in ("ref", "out", "in", "params", "this"):
+            part = part[1:]
+        default = None
+        d = 0
+        for j, (k, v) in enumerate(part):
+            if v in ("(", "<", "["):
+                d += 1
+            elif v in (")", ">", "]"):
+                d -= 1
+            elif v == "=" and d == 0:
+                default = render(part[j + 1:])
+                part = part[:j]
+                break
+        if not part:
+            continue
+        name = part[-1][1] if part[-1][0] == "id" and len(part) > 1 else ""
+        typ = render(part[:-1]) if name else render(part)
+        out.append((typ, name, default))
+    return out
+
+
+def _parse_ctor_body(tokens):
+    """Top-level statements `Name = expr;` (also `this.Name = expr;`) of a constructor body."""
+    assigns = []
+    p = _P(tokens)
+    while not p.eof():
+        start = p.i
+        if p.peek() == "this" and p.peek(1) == ".":
+            p.i += 2
+        if p.kind() == "id" and p.peek(1) == "=":
+            lhs = p.peek()
+            p.i += 2
+            rs = p.i
+            p.skip_to_semicolon()
+            assigns.append((lhs, render(p.t[rs:p.i - 1])))
+            continue
+        p.i = start
+        if p.peek() in OPEN:
+            p.balanced()
+            continue
+        # some other statement: skip it (a block statement ends with its block, anything else with ';')
+        while not p.eof():
+            v = p.peek()
+            if v == "{":
+                p.balanced()
+                break
+            if v in OPEN:
+                p.balanced()
+                continue
+            p.i += 1
+            if v == ";":
+                break
+    return assigns
+
+
+def _parse_type_decl(p, attrs):
+    """p is positioned at the type keyword."""
+    kind = p.next()[1]
+    if kind == "record" and p.peek() in ("class", "struct"):
+        p.i += 1
+    if p.kind() != "id":
+        raise CsParseError("type declaration without a name")
+    name = p.next()[1]
+    if p.peek() == "<":
+        d = 0
+        while not p.eof():
+            v = p.peek()
+            p.i += 1
+            if v == "<":
+                d += 1
+            elif v == ">":
+                d -= 1
+                if d == 0:
+                    break
+    decl = {"kind": kind, "name": name, "bases": "", "attrs": attrs, "members": [], "ctor": None, "enum_members": [], "statics": [],
+            "other_ctors": []}
+    if p.peek() == "(":                      # positional record
+        decl["primary_params"] = _parse_params(p.balanced())
+    if p.peek() == ":":
+        p.i += 1
+        bs = p.i
+        while not p.eof() and p.peek() not in ("{", ";", "where"):
+            if p.peek() == "(":
+                p.balanced()
+            else:
+                p.i += 1
+        decl["bases"] = render(p.t[bs:p.i])
+    while not p.eof() and p.peek() not in ("{", ";"):
+        p.i += 1                              # where-clauses
+    if p.peek() == ";":
+        p.i += 1
+        return decl
+    body = p.balanced()
+    if kind == "enum":
+        _parse_enum_body(decl, body)
+    else:
+        _parse_class_body(decl, body)
+    return decl
+
+
+def _parse_enum_body(decl, tokens):
+    for part in split_top_tokens(tokens):
+        if not part:
+            continue
+        q = _P(part)
+        attrs = q.attr_lists()
+        if q.kind() != "id":
+            raise CsParseError("unexpected tokens in enum %s: %r" % (decl["name"], render(part)[:60]))
+        name = q.next()[1]
+        value = None
+        if q.peek() == "=":
+            q.i += 1
+            txt = render(q.t[q.i:])
+            try:
+                value = int(txt.replace("_", ""), 0)
+            except ValueError:
+                raise CsParseError("enum member %s.%s = %r is no integer literal" % (decl["name"], name, txt))
+        sval = None
+        for a in attrs:
+            m = re.match(r'^EnumMember\(Value = ("(?:[^"\\]|\\.)*"|@"(?:[^"]|"")*")\)$', a)
+            if m:
+                sval = _unquote(m.group(1))
+        if sval is not None:
+            decl["enum_members"].append((name, sval))
+        elif value is not None:
+            decl["enum_members"].append((name, value))
+        else:
+            decl["enum_members"].append((name, None))
+
+
+def _parse_class_body(decl, tokens):
+    p = _P(tokens)
+    while not p.eof():
+        attrs = p.attr_lists()
+        mods = []
+        while p.peek() in MODIFIERS:
+            mods.append(p.next()[1])
+        if p.eof():
+            break
+        v = p.peek()
+        if v in TYPE_KEYWORDS and p.kind(1) == "id":
+            nested = _parse_type_decl(p, attrs)
+            decl.setdefault("nested", []).append(nested)
+            continue
+        if v == ";":
+            p.i += 1
+            continue
+        if v in OPEN:
+            p.balanced()
+            continue
+        # constructor: Name ( ... ) [: base(...)] { ... }   |   Name ( ... ) [: ...] => expr ;
+        if v == decl["name"] and p.peek(1) == "(":
+            p.i += 1
+            params = _parse_params(p.balanced())
+            if p.peek() == ":":
+                p.i += 1
+                while not p.eof() and p.peek() not in ("{", "=>", ";"):
+                    if p.peek() == "(":
+                        p.balanced()
+                    else:
+                        p.i += 1
+            assigns = []
+            if p.peek() == "{":
+                assigns = _parse_ctor_body(p.balanced())
+            else:
+                p.skip_to_semicolon()
+            is_json = any(a == "JsonConstructor" or a.startswith("JsonConstructor(") for a in attrs)
+            ctor = {"params": params, "assigns": assigns, "json": is_json}
+            if is_json or (decl["ctor"] is None and assigns):
+                decl["ctor"] = ctor
+            else:
+                decl["other_ctors"].append(ctor)
+            continue
+        typ = p.parse_type()
+        if typ is None or p.kind() != "id":
+            # operator / indexer / event / destructor / anything else: skip one member
+            _skip_member(p)
+            continue
+        name = p.next()[1]
+        while p.peek() == "." and p.kind(1) == "id":      # explicit interface implementation
+            p.i += 1
+            name = p.next()[1]
+        nx = p.peek()
+        if nx == "{":
+            acc = p.balanced()
+            has_get = any(k == "id" and x == "get" for k, x in acc)
+            init = None
+            has_init = False
+            init_tokens = None
+            if p.peek() == "=":
+                p.i += 1
+                s = p.i
+                p.skip_to_semicolon()
+                init_tokens = p.t[s:p.i - 1]
+                has_init = True
+            if not has_get:
+                continue
+            if "static" in mods:
+                if has_init and len(init_tokens) == 1 and init_tokens[0][0] in ("str", "vstr") and render(typ) == "string":
+                    decl["statics"].append((name, _unquote(init_tokens[0][1]), attrs))
+                continue
+            if has_init and len(init_tokens) == 1 and init_tokens[0][0] in ("str", "vstr"):
+                init = _unquote(init_tokens[0][1])
+            decl["members"].append({"name": name, "type": render(typ), "attrs": attrs, "init": init,
+                                    "line": "%s %s {%s}" % (render(typ), name, render(acc))})
+            continue
+        if nx == "(" or nx == "<":
+            # method
+            if nx == "<":
+                d = 0
+                while not p.eof():
+                    x = p.peek()
+                    p.i += 1
+                    if x == "<":
+                        d += 1
+                    elif x == ">":
+                        d -= 1
+                        if d == 0:
+                            break
+            if p.peek() == "(":
+                p.balanced()
+            while not p.eof() and p.peek() not in ("{", "=>", ";"):
+                p.i += 1
+            if p.peek() == "{":
+                p.balanced()
+            else:
+                p.skip_to_semicolon()
+            continue
+        if nx == "=>":
+            p.skip_to_semicolon()
+            continue
+        if nx in ("=", ";", ","):
+            # field (static string constants count as statics too)
+            s = p.i
+            p.skip_to_semicolon()
+            if nx == "=" and ("static" in mods or "const" in mods) and render(typ) == "string":
+                it = p.t[s + 1:p.i - 1]
+                if len(it) == 1 and it[0][0] in ("str", "vstr"):
+                    decl["statics"].append((name, _unquote(it[0][1]), attrs))
+            continue
+        _skip_member(p)
+
+
+def _skip_member(p):
+    while not p.eof():
+        v = p.peek()
+        if v == "{":
+            p.balanced()
+            return
+        if v in OPEN:
+            p.balanced()
+            continue
+        p.i += 1
+        if v == ";":
+            return
+
+
+def parse_file(text):
+    """-> list of type declarations found in the file:
+    {kind, name, bases, attrs, members:[{name,type,attrs,init}], ctor:{params:[(type,name,default)], assigns:[(lhs,rhs)], json},
+     enum_members:[(name, value)], statics:[(name, value, attrs)]}"""
+    p = _P(tokenize(text))
+    out = []
+
+    def block(p):
+        while not p.eof():
+            v = p.peek()
+            if v == "using" or v == "extern":
+                p.skip_to_semicolon()
+                continue
+            if v == "namespace":
+                p.i += 1
+                while not p.eof() and p.peek() not in ("{", ";"):
+                    p.i += 1
+                if p.peek() == ";":
+                    p.i += 1
+                    continue
+                inner = _P(p.balanced())
+                block(inner)
+                continue
+            if v == ";":
+                p.i += 1
+                continue
+            attrs = p.attr_lists()
+            while p.peek() in MODIFIERS:
+                p.i += 1
+            if p.peek() in TYPE_KEYWORDS and p.kind(1) == "id":
+                out.append(_parse_type_decl(p, attrs))
+                continue
+            if p.eof():
+                break
+            if attrs:
+                continue                      # assembly-level attributes
+            raise CsParseError("unexpected token %r at top level" % p.peek())
+    block(p)
+    return out
 
 
 def parse_dir(root):
@@ -195,7 +533,11 @@ def parse_dir(root):
         files += 1
         with open(os.path.join(root, f), encoding="utf-8") as fh:
             text = fh.read()
-        for d in parse_file(text):
+        try:
+            parsed = parse_file(text)
+        except CsParseError as e:
+            raise CsParseError("%s: %s" % (f, e))
+        for d in parsed:
             d["file"] = f
             if d["name"] in decls:
                 decls[d["name"] + "@" + f] = d
@@ -206,7 +548,7 @@ def parse_dir(root):
 
 def data_member_name(attrs):
     for a in attrs:
-        m = re.match(r'^DataMember\(Name\s*=\s*"((?:[^"\\]|\\.)*)"\)$', a)
+        m = re.match(r'^DataMember\((?:.*,\s*)?Name\s*=\s*"((?:[^"\\]|\\.)*)"(?:\s*,.*)?\)$', a)
         if m:
             return m.group(1)
     return None
